@@ -3,5 +3,7 @@ CONSTANTS
   Ids <- MCIds
   NSet = {1, 2, 3, 4, 5}
   MaxN = 7
+  SparseN = 0
+  SparseMaxE = 0
 INVARIANTS NoThrow QueueShape QueuedEdgesTouchExplored LabelsAreShortest AtEnd Terminates
 CHECK_DEADLOCK TRUE
